@@ -1008,7 +1008,7 @@ func TestVerif_C30(t *testing.T) {
 			c30Run(e, w, c30Input{Vals: []c30Val{a, b}, Form: "pos", Endpoint: "query"})
 		}
 	}
-	n := vN(220, 20000)
+	n := vN(220, 6000)
 	for i := 0; i < n; i++ {
 		k := 1 + rng.Intn(4)
 		in := c30Input{Form: forms[rng.Intn(len(forms))], Endpoint: "query", Remote: rng.Intn(2) == 0}
